@@ -17,9 +17,9 @@ CLAIMED = {
             "TLC enumerates every line-token text up to the body bound for the three entry kinds and proves the coded parser state machines accept exactly the texts with each security-relevant field once, in order and well formed (ParseI = ParseD), idempotence of parse-serialise-parse and round trip of every recordable entry; every emitted token text is rendered to bytes (seeded surface variants) and parsed by rsl.ParseEntryText, entries are recorded through the real writers and read back, fuzzed byte strings are projected to tokens, and TLC judges every observation (no panic, fields equal the definition, canonical text reparses to the same entry and message).",
             "Exhaustive at token level only; byte level is sampled. pem.Decode is opaque. The harness lexer (text -> tokens) is trusted.",
             "DESIGN.md section 4 C14"),
-    "C03": ("RSL.tla, Writers.tla, MC_Writers.tla (Mode=seq), Trace_Writers.tla",
-            "TLC explores every sequence of recording operations (reference, propagation, annotation incl. refused targets, policy staging, apply, attestation commit) up to the bound from empty, numbered and legacy starting logs and checks single chain, numbering, exactly-once/no-ghost, annotation guard, walkability and the append-only action property; every terminal history is replayed through the real writers and the log re-read by an independent walker is judged by TLC against the same predicates and compared with the model's final state.",
-            "Automatic skips (SkipAllInvalidReferenceEntriesForRef) are not yet among the modelled operations; replay uses the harness' in-memory Git-format store.",
+    "C03": ("RSL.tla, Writers.tla, MC_Writers.tla (Mode=seq), Trace_Writers.tla, AutoSkip.tla, MC_AutoSkip.tla, Trace_AutoSkip.tla",
+            "TLC explores every sequence of recording operations (reference, propagation, annotation incl. refused targets, policy staging, apply, attestation commit) up to the bound from empty, numbered and legacy starting logs and checks single chain, numbering, exactly-once/no-ghost, annotation guard, walkability and the append-only action property; every terminal history is replayed through the real writers and the log re-read by an independent walker is judged by TLC against the same predicates and compared with the model's final state. The automatic skip after a history rewrite is specified separately (AutoSkip.tla: commits on history lines, entries of two references, annotations): TLC checks that it appends at most one annotation naming only rewritten entries of the repaired reference, every log up to the bound is built with real commits and SkipAllInvalidReferenceEntriesForRef is run for both references.",
+            "Replay uses the harness' in-memory Git-format store.",
             "DESIGN.md section 4 C03"),
     "C17": ("RSL.tla, Writers.tla, MC_Writers.tla (Mode=conc2/conc3), Trace_Writers.tla",
             "TLC explores all interleavings, at the granularity of reference reads / tip read / compare-and-set, of 2-3 concurrent record / annotate / branch-commit operations and checks exactly-once, no ghost entries, single chain, consecutive unique numbers and walkability; one schedule per distinct terminal state is replayed with real goroutine writers gated call by call on one shared store, and TLC re-runs each recorded schedule through the specification and judges the final log.",
